@@ -174,6 +174,11 @@ _run_without_compiled = run
 
 def run(ctx):
     _run_without_compiled(ctx)
+    from tools import arrayharness as _AH
+    import numpy as _np
+    with _np.errstate(all="ignore"):
+        ctx.coverage["evaluations"] = ctx.coverage.get("evaluations", 0) + _AH.spelling_lattice(ctx, ctx.seed)
+    ctx.coverage["correspondences"]["every spelling of every coordinate through every array constructor (incl. Awkward arrays that keep the spelled field names): getters, synonyms and conversions == vector.obj"] = {"ok": not any(f["site"].startswith("spelling:") for f in ctx.failures)}
     from tools import nbrows
     nbrows.check(ctx, ['to_xy', 'to_xyz', 'to_xyzt', 'to_xyztau', 'to_xytheta', 'to_xythetat', 'to_xythetatau', 'to_xyeta', 'to_xyetat', 'to_xyetatau', 'to_rhophi', 'to_rhophiz', 'to_rhophizt', 'to_rhophiztau', 'to_rhophitheta', 'to_rhophithetat', 'to_rhophithetatau', 'to_rhophieta', 'to_rhophietat', 'to_rhophietatau', 'to_Vector2D', 'to_Vector3D', 'to_Vector4D'], 'the conversions')
 
